@@ -7,6 +7,7 @@ From Coq Require Import ZArith List Bool Lia.
 From NV Require Import Base.Bytes C16.Tables C16.Model C16.Lemmas C16.LemmasTrk C16.LemmasTckHdr
   C08.Model C08.Lemmas.
 From NV Require C06.Model C06.Lemmas C08.ModelSlice C08.LemmasSlice.
+From NV Require C17.Model C17.Lemmas C08.ModelXml C08.LemmasXml.
 Import ListNotations.
 Open Scope Z_scope.
 
@@ -157,6 +158,78 @@ Example C08_partial_read_nonvacuous :
   /\ C08.ModelSlice.partial_read (C06.Model.take 39 F) (C08.ModelSlice.idx_step 3) [2; 3; 4] 1 8
      = C08.ModelSlice.partial_read F (C08.ModelSlice.idx_step 3) [2; 3; 4] 1 8.
 Proof. cbv zeta. repeat split; vm_compute; reflexivity. Qed.
+
+(* ---- repeated reads from ONE lazily loaded tractogram object (the header dict and the file
+   position survive from one pass to the next): on the complete file every pass yields all the
+   streamlines; on ANY strict prefix load(lazy_load=True) raises or every pass raises, however
+   many times the caller retries (a pass that raises stores nothing into the shared header, and
+   the position is restored by the finally clause) *)
+Theorem C08_prefix_lazy_retry_trk : forall o u skeys pkeys sl,
+  wf_offs o = true -> o_hsize o = 996 -> wf_user u -> sl <> [] -> zlen sl < 2 ^ 31 ->
+  Forall wf_key skeys -> Forall wf_key pkeys ->
+  NoDup (map fst skeys) -> NoDup (map fst pkeys) -> zlen skeys <= 10 -> zlen pkeys <= 10 ->
+  widths skeys < 2 ^ 15 -> widths pkeys < 2 ^ 15 ->
+  Forall (wf_tstream (widths skeys) (widths pkeys)) sl ->
+  exists F, trk_save o (mkF 0 []) u skeys pkeys sl = Ok F
+    /\ (forall k, trk_lazy_retry o k F = Some (repeat (Some sl) k))
+    /\ (forall k n, 0 <= n < zlen F ->
+          trk_lazy_retry o k (take n F) = None \/ trk_lazy_retry o k (take n F) = Some (repeat None k)).
+Proof. exact trk_lazy_retry_all. Qed.
+Print Assumptions C08_prefix_lazy_retry_trk.
+
+Theorem C08_prefix_lazy_retry_tck : forall items sl b h,
+  wf_items items -> Forall wf_stream8 sl -> 0 <= b -> tck_header (zlen sl) items = Ok h ->
+  forall k n, 0 <= n < zlen (h ++ tck_data sl) ->
+    tck_lazy_retry b k (take n (h ++ tck_data sl)) = None
+    \/ tck_lazy_retry b k (take n (h ++ tck_data sl)) = Some (repeat None k).
+Proof. exact tck_lazy_retry_all. Qed.
+Print Assumptions C08_prefix_lazy_retry_tck.
+
+(* ---- GIFTI.  expat is an oracle with an explicit contract: `events_of` says what a byte string
+   means (its events, None when not well-formed); however the bytes are cut into blocks, feeding
+   them with final = false and finishing with final = true (ParseFile) raises exactly when the
+   string is not well-formed and otherwise delivers its events up to the chunking of character
+   data (feed_spec).  For a written document `doc` followed by optional white space `tail` such
+   that no strict prefix of doc is well-formed and nothing after doc changes the events: loading
+   ANY prefix, cut into blocks in ANY way (any buffer_size), raises - or returns exactly the image
+   of the complete file, the latter only when all of doc is there.  The handlers are the state
+   machine of coq/C17/Model.v; chunk-independence is C17_chunking_invariant. *)
+Theorem C08_prefix_gifti :
+  forall (b64dec : C17.Model.str -> option (list Z)) (zdecomp : list Z -> option (list Z))
+         (loadtxt : Z -> C17.Model.str -> option (list nat * list Z))
+         (xstate : Type) (x0 : xstate)
+         (xparse : xstate -> list Z -> bool -> option (xstate * list C17.Model.event))
+         (events_of : list Z -> option (list C17.Model.event)),
+  (forall blocks,
+     match C08.ModelXml.feed xstate xparse x0 blocks [], events_of (concat blocks) with
+     | None, None => True
+     | Some e, Some e0 => C17.Model.merge e = C17.Model.merge e0
+     | _, _ => False
+     end) ->
+  forall doc tail : list Z,
+  (forall n, 0 <= n < zlen doc -> events_of (take n (doc ++ tail)) = None) ->
+  (forall n m, zlen doc <= n -> zlen doc <= m ->
+     match events_of (take n (doc ++ tail)), events_of (take m (doc ++ tail)) with
+     | Some e, Some e' => C17.Model.merge e = C17.Model.merge e'
+     | _, _ => False
+     end) ->
+  forall blocks blocksF n,
+    0 <= n -> concat blocks = take n (doc ++ tail) -> concat blocksF = doc ++ tail ->
+    C08.ModelXml.gifti_load b64dec zdecomp loadtxt xstate x0 xparse blocks = C17.Model.Err C17.Model.EParse
+    \/ (C08.ModelXml.gifti_load b64dec zdecomp loadtxt xstate x0 xparse blocks
+        = C08.ModelXml.gifti_load b64dec zdecomp loadtxt xstate x0 xparse blocksF /\ zlen doc <= n).
+Proof. exact C08.LemmasXml.gifti_prefix. Qed.
+Print Assumptions C08_prefix_gifti.
+
+(* the final call matters: a feed loop that never passes final = true accepts a truncated input
+   that ParseFile's loop rejects (toy tokenizer; this is what the seeded change C08-9 did) *)
+Theorem C08_gifti_nofinal_refuted :
+  C08.ModelXml.feed_nofinal Z C08.LemmasXml.toy_parse2 0 [[60; 97]] [] = Some [C17.Model.Chars [60]; C17.Model.Chars [97]]
+  /\ C08.ModelXml.feed Z C08.LemmasXml.toy_parse2 0 [[60; 97]] [] = None
+  /\ C08.ModelXml.feed Z C08.LemmasXml.toy_parse2 0 [[60; 97]; [62]] []
+     = Some [C17.Model.Chars [60]; C17.Model.Chars [97]; C17.Model.Chars [62]].
+Proof. exact C08.LemmasXml.nofinal_accepts_truncated. Qed.
+Print Assumptions C08_gifti_nofinal_refuted.
 
 (* ---- non-vacuity *)
 Example C08_nonvacuous :
